@@ -157,6 +157,7 @@ func (e *sgEngine) Generate(seed uint64, tier string, run int) (json.RawMessage,
 	sizes := []int{0, 1, 2, 3, 5, 8, 16, 33, 64}
 	pattern := rk.Intn(3)
 	lastLen := 0
+	lastText := ""
 	// swarm knob: 20% of the runs draw their texts from truncation aliases (see genCollisionText)
 	collideBits := 0
 	if rk.Chance(0.2) {
@@ -189,7 +190,21 @@ func (e *sgEngine) Generate(seed uint64, tier string, run int) (json.RawMessage,
 					t = t[:l+1]
 				}
 			}
+			if n := len([]rune(lastText)); n > 0 && rg.Chance(0.25) {
+				// a paragraph of the same length as the previous one, written into the same buffer
+				t2 := genClassText(rg, n)
+				if collideBits > 0 {
+					t2 = genCollisionText(rg, n, collideBits)
+				}
+				t = t2
+			}
 			op := ReuseOp{K: "uinit", Text: string(t)}
+			if len([]rune(lastText)) == len(t) && len(t) > 0 && string(t) != lastText {
+				op.E = 1
+			} else if rg.Chance(0.2) {
+				op.E = 1 // refill in place with another length (the common append(buf[:0], ...) idiom)
+			}
+			lastText = string(t)
 			if rg.Chance(0.6) {
 				op.S = rg.Range(1, 11) // a decoy text is segmented by another object right before
 			}
